@@ -495,14 +495,14 @@ def selftest():
 
 
 SUBCHECKS = [
-    Subcheck("plain", plain_cases, check_convert, classify_convert, quick=3000, thorough=120000,
+    Subcheck("plain", plain_cases, check_convert, classify_convert, quick=9000, thorough=120000,
              journal=False),
-    Subcheck("struct", struct_cases, check_convert, classify_convert, quick=4000, thorough=180000,
+    Subcheck("struct", struct_cases, check_convert, classify_convert, quick=12000, thorough=180000,
              journal=False),
-    Subcheck("predicates", predicate_cases, check_predicates, classify_predicates, quick=1000,
+    Subcheck("predicates", predicate_cases, check_predicates, classify_predicates, quick=3000,
              thorough=30000, journal=False),
-    Subcheck("descr", descr_cases, check_descr, classify_descr, quick=1000, thorough=30000,
+    Subcheck("descr", descr_cases, check_descr, classify_descr, quick=3000, thorough=30000,
              journal=False),
-    Subcheck("recfile_native", rf_native_cases, check_rf_native, classify_rf_native, quick=1500,
+    Subcheck("recfile_native", rf_native_cases, check_rf_native, classify_rf_native, quick=4500,
              thorough=40000, journal=False),
 ]
